@@ -34,7 +34,8 @@ def main():
     except Exception as e:
         import traceback
         traceback.print_exc()
-        print(f"CHECKER-ERROR {a.prop}: engine exception ({type(e).__name__}: {str(e)[:200]})")
+        where = " <- ".join(f"{os.path.basename(f.filename)}:{f.lineno}" for f in traceback.extract_tb(e.__traceback__)[-4:])
+        print(f"CHECKER-ERROR {a.prop}: engine exception ({type(e).__name__}: {str(e)[:200]}) at {where}")
         rc = 3
     sys.exit(rc)
 
